@@ -99,7 +99,16 @@ func runC11(ctx *h.Ctx) int {
 	prof := profC01()
 	prof.PAuto, prof.MaxLeaves, prof.PTextArg, prof.NoRedundantPar, prof.PRepeatAuto = 0.5, 3, 0.1, false, 0.25
 	ctx.RunCases("autovar-in-programs", ctx.N(2500, 100000), func(k *h.Case) {
+		prof := prof
+		if k.Index%3 == 1 {
+			// statement poryswitches: AutoVar conditions and switches written directly in a poryswitch case
+			prof.PoryKeys, prof.WPory, prof.WSwitch = []string{"GAME", "LANG"}, 10, 10
+		}
 		g, prog := genScripts(k, prof, 1)
+		for _, key := range prof.PoryKeys {
+			prog.Switches[key] = []string{"RUBY", "SAPPHIRE", "EMERALD", "1", "OTHER"}[k.R.IntN(5)]
+			k.Count("programs_with_statement_poryswitch", 1)
+		}
 		if k.Index%3 == 0 {
 			// a constant spelled like the configured result var of an AutoVar command: the compared var
 			// comes from the command config and is not a use of that constant
@@ -118,7 +127,15 @@ func runC11(ctx *h.Ctx) int {
 		}
 		pr := layoutOf(k, prog, 0.15)
 		k.SetSource(pr.Src)
-		lm := buildLabelModel(prog)
+		rp, rerr := spec.Resolve(prog, prog.Switches)
+		if rerr != nil {
+			k.Count("no_poryswitch_case_selected", 1)
+			if res := h.Compile(pr.Src, optsOf(prog, true)); res.OK() {
+				acceptedUnmatched(k)
+			}
+			return
+		}
+		lm := buildLabelModel(rp)
 		for _, opt := range []bool{true, false} {
 			res := h.Compile(pr.Src, optsOf(prog, opt))
 			k.Count("evaluations", 1)
@@ -129,12 +146,12 @@ func runC11(ctx *h.Ctx) int {
 				return
 			}
 			k.Count("accepted", 1)
-			if !vmCheck(k, prog, res.Out, vmCheckOpts{NStates: ctx.N(6, 16), Full: true, Render: lm.renderCmd, Cands: g.Cands(), Orig: prog, Optimize: opt}, fmt.Sprintf("optimize=%v", opt)) {
+			if !vmCheck(k, rp, res.Out, vmCheckOpts{NStates: ctx.N(6, 16), Full: true, Render: lm.renderCmd, Cands: g.Cands(), Orig: prog, Optimize: opt}, fmt.Sprintf("optimize=%v", opt)) {
 				return
 			}
 		}
 		if len(prog.AutoVars) > 0 {
-			k.Nontrivial("prog", shapeOfBlock(scriptsOf(prog)[0].Body))
+			k.Nontrivial("prog", shapeOfBlock(scriptsOf(rp)[0].Body))
 		}
 	})
 	// 5. the command config read from a JSON file by the CLI gives the same output
